@@ -42,6 +42,10 @@ func c06Jobs(tier string) []Job {
 		kind := kind
 		jobs = append(jobs, Job{Name: "content " + kind + " @minting-denom-uUSDC", Run: func(r *Run) { c06Run(r, "denom-uUSDC", kind) }})
 	}
+	for _, kind := range []string{"send", "sendWithCaller", "replace"} {
+		kind := kind
+		jobs = append(jobs, Job{Name: "content " + kind + " @max-body-20000", Run: func(r *Run) { c06Run(r, "max-body-20000", kind) }})
+	}
 	for _, hp := range []string{"fresh", "after-traffic", "after-pause-cycle"} {
 		for _, kind := range []string{"send", "sendWithCaller", "deposit", "depositWithCaller", "replace"} {
 			hp, kind := hp, kind
@@ -94,6 +98,8 @@ func c06Run(r *Run, hp, kind string) {
 		do(MkSendWithCaller(UserA.Str, 3, distinct32(0x31), []byte("y"), distinct32(0x33)))
 		in := InboundBurn(DomEth, 4, big.NewInt(12), pad32(UserB.Addr), nil)
 		do(MkReceive(UserB.Str, in, Attest(in, signers), "burn(0,4,12)"))
+	case "max-body-20000":
+		do(Act("updateMaxMessageBodySize(20000) by A0", &cctptypes.MsgUpdateMaxMessageBodySize{From: Owner.Str, MessageSize: 20000}))
 	case "after-pause-cycle":
 		do(Act("pauseSendingAndReceiving by A2", &cctptypes.MsgPauseSendingAndReceivingMessages{From: Pauser.Str}))
 		do(Act("pauseBurningAndMinting by A2", &cctptypes.MsgPauseBurningAndMinting{From: Pauser.Str}))
@@ -127,6 +133,15 @@ func c06Run(r *Run, hp, kind string) {
 		doms = append(doms, 4, 256)
 	}
 
+	if hp == "max-body-20000" { // the owner raised the limit: bodies beyond the genesis default of 8000 are legal now
+		for _, n := range []int{8001, 12345, 20000} {
+			b := make([]byte, n)
+			for i := range b {
+				b[i] = byte(i*3 + n)
+			}
+			bodies = append(bodies, b)
+		}
+	}
 	qd, qp, qb := len(doms), len(pats), len(bodies)
 	// thorough extends each axis; the product is then taken with AT MOST ONE axis outside its quick
 	// range (every extended value of every axis meets every quick value of all other axes)
@@ -357,6 +372,14 @@ func c06Run(r *Run, hp, kind string) {
 						a.Desc = fmt.Sprintf("replaceMessage(dst=%d,body#%d,caller#%d) by %s", d, bi, ci, s.Name)
 						check(a)
 					}
+				}
+				// an attested original that claims message version 1 (nothing validates the version of an
+				// original): whatever is emitted for it must still be a version-0 message
+				v1 := RefMsg(1, Noble, d, 1<<40, pad32(s.Addr), pats[0], pats[1], bodies[2])
+				for bi, body := range bodies[:qb] {
+					a := MkReplaceMessage(s.Str, v1, Attest(v1, signers), body, pats[2], "version-1 original")
+					a.Desc = fmt.Sprintf("replaceMessage(version-1 original,dst=%d,body#%d) by %s", d, bi, s.Name)
+					check(a)
 				}
 				for ri, rc := range pats {
 					for ci, cl := range rcallers {
